@@ -1,5 +1,5 @@
 """Statement / expression semantics of the accepted Python subset (see DESIGN.md 2.2)."""
-import ast
+import ast, os
 import z3
 from .values import *
 from .engine import *
@@ -976,17 +976,48 @@ class Interp:
             kwargs[k.arg] = self.eval(k.value, fr)
         return self.call(f, args, kwargs, fr, node)
 
+    def listcomp_unrolled(self, node, g, it, fr):
+        """[elt for x in <symbolic list> if cond] with no contract: lists of up to UNROLL elements are followed exactly"""
+        ctx = self.ctx
+        ctx.trust('list comprehension over a symbolic list without a contract: followed for up to %d elements (refutations only)' % self.UNROLL)
+        lo, hi = self.iter_bounds(it)
+        out = []
+        sub = Frame(fr.fi, fr.module, fr.cls, {}, fr.con, closure=fr)
+        k = 0
+        while ctx.decide(lo + k < hi, 'unrolled-comprehension'):
+            if k >= self.UNROLL:
+                raise Unsupported('list comprehension over a symbolic list has no contract (followed for %d elements)' % self.UNROLL)
+            self.assign(g.target, self.iter_elem(it, z3.simplify(lo + k)), sub)
+            k += 1
+            keep = True
+            for c in g.ifs:
+                t = self.truth(self.eval(c, sub))
+                if not (t if isinstance(t, bool) else ctx.decide(t, 'comprehension-filter')):
+                    keep = False
+                    break
+            if keep:
+                out.append(self.eval(node.elt, sub))
+        return ctx.alloc(HObj('list', 'list', {'items': out}, closed=True))
+
     def e_ListComp(self, node, fr):
-        if len(node.generators) != 1 or node.generators[0].ifs:
+        if len(node.generators) != 1:
             raise Unsupported('list comprehension form')
         g = node.generators[0]
         it = self.eval(g.iter, fr)
+        if g.ifs and not (isinstance(it, VObj) and self.ctx.heap[it.oid].kind == 'symlist'):
+            raise Unsupported('list comprehension form')
         if isinstance(it, VObj) and self.ctx.heap[it.oid].kind in ('range', 'grid'):
             special = self.listcomp_symbolic(node, g, it, fr)
             if special is not None:
                 return special
+        if len(node.generators) == 1 and isinstance(it, VObj) and self.ctx.heap[it.oid].kind == 'symlist' and not g.ifs:
+            try:
+                return self.listcomp_with_contract(node, g, it, fr)
+            except Unsupported as u:
+                if 'needs a loop contract' not in str(u):
+                    raise
         if isinstance(it, VObj) and self.ctx.heap[it.oid].kind == 'symlist':
-            return self.listcomp_with_contract(node, g, it, fr)
+            return self.listcomp_unrolled(node, g, it, fr)
         if isinstance(it, VStr):
             # iterating a string: nothing when it is empty; otherwise the element expression is evaluated for the
             # first character (an int for bytes) -- exact when that raises, outside the subset when it does not
@@ -1276,11 +1307,12 @@ class Interp:
         post.interp = self
         con.effects(post)               # may update the live ghost state (post.g is ctx.ghost here)
         post.g = dict(ctx.ghost)        # ... and from here on the view is frozen
-        for cid, f in con.ensures(post):
-            ctx.assume_spec(f)
+        # vacuity bookkeeping first: an outcome whose postcondition is plainly false ends the path inside assume_spec
         site = '%s@%s' % (what, getattr(fr.fi, 'qual', '?') if fr is not None and fr.fi is not None else '?')
         st = ctx.callsites.setdefault(site, [0, 0])
         st[0] += 1
+        for cid, f in con.ensures(post):
+            ctx.assume_spec(f)
         if (ctx.qhyps or ctx.qhyps2):
             ctx.instantiate([])
         if not ctx.feasible():
@@ -1582,11 +1614,44 @@ class Interp:
             return con.loops.get(idx), idx
         return None, idx
 
+    UNROLL = int(os.environ.get('VERIF_UNROLL', '2'))
+
     def s_While(self, node, fr):
         spec, idx = self.loop_spec(fr, node)
         if spec is None:
-            raise Unsupported('while loop #%s in %s has no loop contract' % (idx, fr.fi.qual if fr.fi else '?'))
+            return self.unroll_loop(node, fr, idx, 'while')
         self.run_loop(node, fr, spec, idx, kind='while')
+
+    def unroll_loop(self, node, fr, idx, kind, iterable=None):
+        """A loop the sidecar has no contract for (code that changed since the contracts were written): the paths
+        that leave it within UNROLL iterations are followed exactly - what fails on them is a real counterexample
+        path - and every longer path is reported as outside the contracts (undecided, never proved)."""
+        ctx = self.ctx
+        where = '%s loop #%s in %s' % (kind, idx, fr.fi.qual if fr.fi else '?')
+        ctx.trust('no loop contract for %s: followed for up to %d iterations (refutations only; nothing is proved about longer runs)' % (where, self.UNROLL))
+        if kind == 'for':
+            lo, hi = self.iter_bounds(iterable)
+        k = 0
+        while True:
+            if kind == 'while':
+                t = self.truth(self.eval(node.test, fr))
+                more = t if isinstance(t, bool) else ctx.decide(t, 'unrolled-while')
+            else:
+                more = ctx.decide(lo + k < hi, 'unrolled-for')
+            if not more:
+                self.exec_block(node.orelse, fr)
+                return
+            if k >= self.UNROLL:
+                raise Unsupported('%s has no loop contract (followed for %d iterations)' % (where, self.UNROLL))
+            if kind == 'for':
+                self.assign(node.target, self.iter_elem(iterable, z3.simplify(lo + k)), fr)
+            k += 1
+            try:
+                self.exec_block(node.body, fr)
+            except _Break:
+                return
+            except _Continue:
+                continue
 
     def s_For(self, node, fr):
         spec, idx = self.loop_spec(fr, node)
@@ -1604,9 +1669,12 @@ class Interp:
                 items = self.concrete_items(it)
             except Unsupported:
                 if isinstance(it, VObj) and self.ctx.heap[it.oid].kind == 'range':
-                    items = self.concrete_range(it)
+                    try:
+                        items = self.concrete_range(it)
+                    except Unsupported:
+                        return self.unroll_loop(node, fr, idx, 'for', iterable=it)
                 else:
-                    raise Unsupported('for loop #%s in %s needs a loop contract' % (idx, fr.fi.qual if fr.fi else '?'))
+                    return self.unroll_loop(node, fr, idx, 'for', iterable=it)
             broke = False
             for x in items:
                 self.assign(node.target, x, fr)
@@ -1644,7 +1712,17 @@ class Interp:
         sv = StateView(ctx, fr)
         sv.entry = LocalsView(ctx, entry_heap, entry_locals)
         sv.iter = iterable
-        for cid, f in spec.invariant(sv):
+        try:
+            inv0 = spec.invariant(sv)
+        except AttributeError as e:
+            if 'no local/arg named' not in str(e):
+                raise
+            # the loop contract speaks about a local this code does not have (the code changed): it cannot be applied
+            ctx.trust('loop contract of %s not applicable (%s)' % (lid, e))
+            if ghost_i is not None:
+                fr.locals.pop(ghost_i, None)
+            return self.unroll_loop(node, fr, idx, kind, iterable=iterable)
+        for cid, f in inv0:
             ctx.oblige('%s.inv-init.%s' % (lid, cid), f, 'inv-init', lid)
         # havoc
         lvars = spec.vars(sv) if callable(spec.vars) else spec.vars
